@@ -27,7 +27,7 @@ def unset (tabs : List Nat) (pos : Nat) : List Nat := tabs.filter (· ≠ pos)
 
 /-- `Tabs::expand(start, end)` -/
 def expand (tabs : List Nat) (start stop : Nat) : List Nat :=
-  tabs ++ stepFrom (start + (8 - start % 8)) stop
+  tabs ++ stepFrom (if start % 8 ≠ 0 then start + (8 - start % 8) else start) stop
 
 /-- `Tabs::contract(pos)`: `partition_point(|t| t < pos)`, truncate -/
 def contract (tabs : List Nat) (pos : Nat) : List Nat := tabs.takeWhile (· < pos)
@@ -292,9 +292,9 @@ def hardReset (t : Terminal) : Option Terminal :=
            otherBuffer := Buffer.new t.cols t.rows (some 0) none,
            activeBufferType := .primary, tabs := Tabs.new t.cols, cursor := {}, pen := {},
            charsets := (.ascii, .ascii), activeCharset := 0, insertMode := false,
-           originMode := false, autoWrapMode := true, newLineMode := false, pendingWrap := false,
-           topMargin := 0, bottomMargin := r1, savedCtx := {}, alternateSavedCtx := {},
-           dirtyLines := Dirty.new t.rows }
+           originMode := false, autoWrapMode := true, newLineMode := false, cursorKeysMode := .normal,
+           pendingWrap := false, topMargin := 0, bottomMargin := r1, savedCtx := {},
+           alternateSavedCtx := {}, dirtyLines := Dirty.new t.rows }
 
 def primaryBuffer (t : Terminal) : Buffer :=
   if t.activeBufferType = .primary then t.buffer else t.otherBuffer
@@ -325,7 +325,18 @@ def print (t : Terminal) (ch : Nat) : Option Terminal :=
           if t.cursor.row = t.bottomMargin then
             match t.buffer.wrap t.cursor.row with
             | none => none
-            | some b => ({ t with buffer := b } : Terminal).scrollUpInRegion 1
+            | some b =>
+              match ({ t with buffer := b } : Terminal).scrollUpInRegion 1 with
+              | none => none
+              | some t =>
+                match csub t.rows 1 with
+                | none => none
+                | some r1 =>
+                  if t.bottomMargin < r1 then
+                    match csub t.bottomMargin 1 with
+                    | none => none
+                    | some bm1 => (t.buffer.wrap bm1).map fun b => { t with buffer := b }
+                  else some t
           else
             match csub t.rows 1 with
             | none => none
@@ -372,7 +383,7 @@ def nel (t : Terminal) : Option Terminal :=
 
 def ri (t : Terminal) : Option Terminal :=
   if t.cursor.row = t.topMargin then t.scrollDownInRegion 1
-  else if t.cursor.row > 0 then t.moveCursorToRow (t.cursor.row - 1)
+  else if t.cursor.row > 0 then t.doMoveCursorToRow (t.cursor.row - 1)
   else some t
 
 def decalnRow (cols : Nat) : Line := ⟨List.replicate cols ⟨0x45, Pen.default⟩, false⟩
